@@ -31,6 +31,19 @@ func mk(ctor string, args []interface{}) Obj {
 
 func New(args ...interface{}) *Obj   { o := mk("New", args); return &o }
 func NewVal(args ...interface{}) Obj { return mk("NewVal", args) }
+
+// NewTouch is New for a user who writes into the objects handed to the constructor.
+func NewTouch(args ...interface{}) *Obj {
+	for _, a := range args {
+		if p, ok := a.(*Obj); ok && p != nil {
+			v := p.scratch
+			rec.Jitter()
+			p.scratch = v + 1
+		}
+	}
+	o := mk("NewTouch", args)
+	return &o
+}
 func NewIface(args ...interface{}) Iface {
 	o := mk("NewIface", args)
 	return &o
